@@ -12,14 +12,17 @@ TRUST_KANI = ("Trusted: rustc MIR, Kani 0.68 MIR->goto translation and its std m
 CHECKS = {
  "C03": dict(
     engine="kani-real + mir2smt",
-    technique="bounded model checking (Kani/CBMC SAT) of the real arithmetic kernels over full-width symbolic i64 operands against an i128 oracle; SMT (z3+cvc5) over the nightly MIR for division/remainder and operator tables",
+    technique="bounded model checking (Kani/CBMC SAT) of the real arithmetic kernels over full-width symbolic i64 operands against an i128 oracle, and of the real text tokenizer on symbolic Unicode text / symbolic digit strings; SMT (z3+cvc5) over the nightly MIR for division/remainder and operator tables",
     text=("For every pair of 64-bit operands and every binary operator, the solver shows the real kernel "
           "yash_arith::eval::binary_result returns the exact mathematical value or the documented error "
           "(never a wrapped value); unary/postfix/assignment/lazy-evaluation paths are decided on symbolic "
-          "values with AST templates built directly. Text-level tokenizing/parsing of arbitrary strings is "
-          "outside (DESIGN.md C03)."),
+          "values with AST templates built directly. The text tokenizer (Tokens::next_token) is decided on every text of "
+          "<= 2 characters (thorough: 3) over all of Unicode - no panic, progress, token ranges on character boundaries, "
+          "token kinds, operators by longest match - and numeric constants of every radix are shown to denote their exact "
+          "value or InvalidNumericConstant up to the 2^63 boundary (hex 16-17 digits; thorough: decimal 18-20, octal 21-22). "
+          "The parser on longer token sequences and arbitrary long text are outside (DESIGN.md C03)."),
     design_ref="DESIGN.md §6 C03",
-    note=TRUST_KANI + " E3 additionally trusts the hand-written MIR->SMT translator (self-validated on every run against the repository's own unit-test vectors) and z3 4.8.12 / cvc5 1.0 agreeing."),
+    note=TRUST_KANI + " E3 additionally trusts the hand-written MIR->SMT translator (self-validated on every run against the repository's own unit-test vectors) and z3 4.8.12 / cvc5 1.0 agreeing. Tokenizer obligations: the Unicode table walks behind char::is_alphanumeric (core::unicode::unicode_data::{alphabetic,n}::lookup) are stubbed by an arbitrary answer above U+007F (over-approximation)."),
  "C01": dict(
     engine="kani-real",
     technique="bounded model checking (Kani/CBMC SAT) of the real field-splitting, quote-removal, phrase and switch-condition kernels on symbolic character sequences against a POSIX reference splitter; compositional (classification verified per IFS, state machine verified against its specification via kani::stub)",
@@ -58,13 +61,17 @@ CHECKS = {
           "leaves unspecified are skipped and counted.")),
  "C07": dict(
     engine="kani-real",
-    technique="bounded model checking (Kani/CBMC SAT) of the real quoting function on one symbolic character over all of Unicode, against a reference word reader that calls the real lexer's blank/delimiter predicates",
+    technique="bounded model checking (Kani/CBMC SAT) of the real quoting function (decision and printed form) on symbolic strings of up to three characters over all of Unicode, against a reference reader of one shell word that calls the real lexer's blank/delimiter predicates",
     text=("For every Unicode scalar value c (one symbolic char) and for the empty string: whenever the shell would not read the "
-          "unquoted character back literally (per the real lexer's blank/delimiter predicates), yash_quote decides to quote it. The "
-          "printed form (quote style, escapes), strings of two or more characters, reading back through the real lexer, and all "
-          "state listings are outside (measured: out of memory / no answer in 25 min / need command execution)."),
+          "unquoted character back literally (per the real lexer's blank/delimiter predicates), yash_quote decides to quote it. "
+          "For every string of one or two characters (each any Unicode scalar value; three ASCII characters; thorough: four) the "
+          "PRINTED form produced by the real Display implementation is read back by a reference word reader (XCU 2.2/2.3/2.6/2.13: "
+          "single quotes, double quotes with their four escapes, live $ and backquote, first-position # and ~, :~, = after the "
+          "first character, [..] and {..}) as exactly the original string, and unquoted output is produced only for strings the "
+          "shell reads literally. Longer strings, reading back through the real lexer, and all state listings are outside "
+          "(parser / command execution)."),
     design_ref="DESIGN.md §0 and §6 C07",
-    note=TRUST_KANI),
+    note=TRUST_KANI + " Transform T8: the one formatted write `write!(f, \"'{}'\", raw)` is spelled out as three plain writes under cfg(kani) (core::fmt's argument machinery ran CBMC out of memory). Stubs: <&str as Pattern>::is_contained_in and core::slice::memchr::memchr replaced by naive searches with the same contract."),
  "C10": dict(
     engine="kani-real",
     technique="bounded model checking (Kani/CBMC SAT) of the real errexit decision kernel (Env::errexit_is_applicable, apply_errexit) over symbolic frame stacks, option and exit status, and of the shell-error handlers of handle.rs",
@@ -96,6 +103,19 @@ CHECKS = {
           "every length over tables of <= 3 jobs. %string lookup and the jobs/fg/bg built-ins are outside."),
     design_ref="DESIGN.md §0 and §6 C12",
     note=TRUST_KANI + " Transform T1 (HashMap -> association list). slab is the real crate."),
+ "C16": dict(
+    engine="kani-real",
+    technique="bounded model checking (Kani/CBMC SAT): simulation steps of the real VariableSet operations (get, get_scoped, get_or_new + assign, unset, context pop/push, export / read-only marks) against a stack-of-scopes reference model, from every context-stack shape of <= 3 contexts and every occupancy of one variable name, entry contents symbolic",
+    text=("One operation on ANY variable set over <= 3 contexts (each regular or volatile; one name present in any subset of the "
+          "contexts; value / exported / read-only of every entry symbolic) behaves as the scope documentation says: lookup returns "
+          "the entry of the innermost context within the scope; assignment goes to the documented context, lowering or cloning "
+          "temporary (volatile) variables as documented; a read-only variable is neither modified nor unset and the refused "
+          "operation changes nothing; leaving a context removes exactly that context's entries (locals and temporary assignments "
+          "vanish, outer variables persist); other variables are untouched. The step covers histories of any length over such "
+          "sets. Which command kinds push/pop which contexts and the environment passed to programs are outside (command "
+          "execution; CString formatting)."),
+    design_ref="DESIGN.md §0 and §6 C16",
+    note=TRUST_KANI + " Transforms T1c (HashMap / per-name Vec -> heap-light stand-ins with the same contract, one boxed cell per record) and T7v (Location stored in a Variable -> unit stand-in)."),
 }
 
 NOT_APPLICABLE = {
@@ -106,7 +126,6 @@ NOT_APPLICABLE = {
  "C13": "concurrency/schedules: Kani does not model concurrent code; wait_for_subshell over a symbolic-schedule kernel stub gave no answer in 40 min; child start sites are async closures (Kani ICE)",
  "C14": "pipe buffer step (FileBody::Fifo poll_write) exceeded 12 GB per arm even with scaled constants (WakerSet hash sets); transfer loops and pipelines are concurrency",
  "C15": "executor Task/Waker: Rc<RefCell<VecDeque<Rc<Task>>>> + dyn Future + RawWaker vtable fan-out; three formulations (history, step lemma, Task::wake alone) all exceeded 10 GB or 25 min",
- "C16": "VariableSet single-arm simulation step exceeded 10 GB (recursive drop glue of Location in every Variable move); command-kind half is command execution (async closures)",
  "C17": "alias substitution lives inside the lexer/parser on which CBMC runs out of memory even for concrete input (see C06)",
  "C18": "FdReader2::next_line single arm ran the SAT back end out of memory (UTF-8 validation of symbolic bytes); the rest is parser + read-eval loop (command execution)",
  "C19": "one side of the comparison is the host kernel behind libc FFI; nothing to encode",
@@ -114,7 +133,7 @@ NOT_APPLICABLE = {
 }
 
 # properties whose quick check has run green on the unchanged tree in this sandbox
-ENABLED = ["C01", "C02", "C03", "C04", "C07", "C10", "C11", "C12"]
+ENABLED = ["C01", "C02", "C03", "C04", "C07", "C10", "C11", "C12", "C16"]
 
 
 def main():
